@@ -130,7 +130,10 @@ func c06Quiet() func() {
 type c06GateExp struct {
 	mu       sync.Mutex
 	log      [][]int
-	inExport bool
+	active   int  // exporter calls in progress (must never exceed 1)
+	overlaps int  // exporter calls entered while another one was in progress (L3)
+	calls    int  // exporter calls so far
+	timedOut bool // the context of the latest call has been cancelled (per-export timeout fired); the call goes on
 	changed  int
 	gate     chan string // outcome of the export in progress: g+ nil, g- error, gc context.Canceled, gd context.DeadlineExceeded
 }
@@ -148,11 +151,33 @@ func (e *c06GateExp) Export(ctx context.Context, recs []Record) error {
 	e.mu.Lock()
 	e.log = append(e.log, ids)
 	e.changed += bad
-	e.inExport = true
+	if e.active > 0 {
+		e.overlaps++
+	}
+	e.active++
+	e.calls++
+	me := e.calls
+	e.timedOut = false
 	e.mu.Unlock()
-	res := <-e.gate
+	// this exporter does NOT honour its context: it stays in the call until the script opens the gate, also after
+	// the per-export timeout (timeoutExporter) has cancelled the context; it only records that it saw the cancellation
+	done := ctx.Done()
+	var res string
+	for waiting := true; waiting; {
+		select {
+		case res = <-e.gate:
+			waiting = false
+		case <-done:
+			done = nil
+			e.mu.Lock()
+			if e.calls == me {
+				e.timedOut = true
+			}
+			e.mu.Unlock()
+		}
+	}
 	e.mu.Lock()
-	e.inExport = false
+	e.active--
 	e.mu.Unlock()
 	return c06ExportErr(res)
 }
@@ -213,10 +238,11 @@ func (r *c06Run) obs() string {
 		bs[i] = c06Dot(b)
 	}
 	inx := 0
-	if r.exp.inExport {
+	if r.exp.active > 0 {
 		inx = 1
 	}
 	changed := r.exp.changed
+	overlaps := r.exp.overlaps
 	r.exp.mu.Unlock()
 	l := "-"
 	if len(bs) > 0 {
@@ -236,7 +262,7 @@ func (r *c06Run) obs() string {
 	}
 	r.mu.Unlock()
 	sort.Ints(ended)
-	return fmt.Sprintf("L=%s;X=%d;F=%s;S=%s;D=%d;Q=%d;E=%s;M=%d", l, inx, f, s, r.bp.q.dropped.Load(), r.lastQ, c06Dot(ended), changed)
+	return fmt.Sprintf("L=%s;X=%d;F=%s;S=%s;D=%d;Q=%d;E=%s;M=%d;O=%d", l, inx, f, s, r.bp.q.dropped.Load(), r.lastQ, c06Dot(ended), changed, overlaps)
 }
 
 func (r *c06Run) settle(win time.Duration) string {
@@ -269,8 +295,15 @@ func c06Res(err error) string {
 // c06RunSched returns the effective configuration and one observation per op.
 func c06RunSched(capQ, batch, buf int, ops []string, win time.Duration) (cfg [3]int, out []string) {
 	exp := &c06GateExp{gate: make(chan string)}
+	// scripts with a `t` op (wait until the per-export timeout has fired) run with a short export timeout
+	expTimeout := time.Hour
+	for _, op := range ops {
+		if op == "t" {
+			expTimeout = 15 * time.Millisecond
+		}
+	}
 	bp := NewBatchProcessor(exp, WithMaxQueueSize(capQ), WithExportMaxBatchSize(batch), WithExportBufferSize(buf),
-		WithExportInterval(time.Hour), WithExportTimeout(time.Hour))
+		WithExportInterval(time.Hour), WithExportTimeout(expTimeout))
 	cfg = [3]int{bp.q.cap, bp.batchSize, cap(bp.exporter.input)}
 	r := &c06Run{bp: bp, exp: exp, ended: map[int]bool{}, ffRes: map[int]string{}, sdRes: map[int]string{}, parked: map[string]chan struct{}{}}
 	for _, op := range ops {
@@ -304,10 +337,23 @@ func c06RunSched(capQ, batch, buf int, ops []string, win time.Duration) (cfg [3]
 		switch {
 		case op == "g+" || op == "g-" || op == "gc" || op == "gd":
 			exp.mu.Lock()
-			in := exp.inExport
+			in := exp.active > 0
 			exp.mu.Unlock()
 			if in {
 				exp.gate <- op
+			}
+		case op == "t":
+			// wait until the exporter call in progress has seen its context cancelled by the export timeout (observed,
+			// not slept for); the call itself goes on. No call in progress: nothing to wait for.
+			deadline := time.Now().Add(3 * time.Second) // never decides a verdict: `t` is a no-op for the model
+			for {
+				exp.mu.Lock()
+				in, fired := exp.active > 0, exp.timedOut
+				exp.mu.Unlock()
+				if !in || fired || time.Now().After(deadline) {
+					break
+				}
+				time.Sleep(500 * time.Microsecond)
 			}
 		case op[0] == 's':
 			k, _ := strconv.Atoi(op[1:])
@@ -425,8 +471,14 @@ func c06GenOps(r *vRand, n int) []string {
 		case k < 11:
 			ops = append(ops, "e"+strconv.Itoa(nextID))
 			nextID++
-		case k < 16:
+		case k < 15:
 			ops = append(ops, "g+")
+		case k < 16:
+			if r.Intn(3) == 0 {
+				ops = append(ops, "t")
+			} else {
+				ops = append(ops, "g+")
+			}
 		case k < 17:
 			ops = append(ops, bad())
 		case k < 21:
@@ -494,6 +546,40 @@ func c06GenBacklog(r *vRand, capQ, batch, buf int) []string {
 	return ops
 }
 
+// c06GenTimeout: the exporter ignores its deadline. An export is in progress with more work pending (buffered
+// batches, queued records, a ForceFlush or a Shutdown); the per-export timeout fires (`t`: observed inside the
+// exporter); nothing may move until the gate opens: no second Export call, no Shutdown return.
+func c06GenTimeout(r *vRand, capQ, batch, buf int) []string {
+	ops := []string{}
+	id := 1
+	emit := func(k int) {
+		for j := 0; j < k; j++ {
+			ops = append(ops, "e"+strconv.Itoa(id))
+			id++
+		}
+	}
+	emit(batch * (1 + r.Intn(buf+2)))
+	ops = append(ops, "t")
+	switch r.Intn(4) {
+	case 0:
+		ops = append(ops, "s1", "t")
+	case 1:
+		ops = append(ops, "f1", "t")
+	case 2:
+		emit(1 + r.Intn(capQ))
+		ops = append(ops, "t", "s1")
+	default:
+		emit(1 + r.Intn(capQ))
+	}
+	for j := 0; j < 3+r.Intn(6); j++ {
+		ops = append(ops, []string{"g+", "g+", "g+", "t", "g-", "gd"}[r.Intn(6)])
+		if r.Intn(3) == 0 {
+			ops = append(ops, "t")
+		}
+	}
+	return ops
+}
+
 func TestVerifC06Sched(t *testing.T) {
 	out := vOpen(t)
 	defer out.Close()
@@ -521,6 +607,11 @@ func TestVerifC06Sched(t *testing.T) {
 			if i%5 == 4 {
 				c, b, u := 4+r.Intn(3), 1+r.Intn(2), 1+r.Intn(2)
 				jobs = append(jobs, job{"backlog", c, b, u, c06GenBacklog(r, c, b, u)})
+				continue
+			}
+			if i%10 == 7 {
+				c, b, u := 3+r.Intn(3), 1+r.Intn(2), 1+r.Intn(2)
+				jobs = append(jobs, job{"timeout", c, b, u, c06GenTimeout(r, c, b, u)})
 				continue
 			}
 			jobs = append(jobs, job{"rnd", 1 + r.Intn(5), 1 + r.Intn(4), 1 + r.Intn(3), c06GenOps(r, 3+r.Intn(12))})
@@ -641,8 +732,10 @@ func c06OneHist(seed uint64, warned *atomic.Uint64) string {
 	exp := &c06HistExp{r: &vRand{s: seed ^ 0xabcdef}, failEv: []int{0, 0, 3, 7}[r.Intn(4)]}
 	iv := []time.Duration{time.Hour, 200 * time.Microsecond, time.Millisecond}[r.Intn(3)]
 	warned.Store(0)
+	// in a third of the histories the export timeout is shorter than the exporter's latency; the exporter ignores it
+	expTimeout := []time.Duration{time.Hour, time.Hour, 30 * time.Microsecond}[(&vRand{s: seed ^ 0x7157}).Intn(3)]
 	bp := NewBatchProcessor(exp, WithMaxQueueSize(capQ), WithExportMaxBatchSize(batch), WithExportBufferSize(buf),
-		WithExportInterval(iv), WithExportTimeout(time.Hour))
+		WithExportInterval(iv), WithExportTimeout(expTimeout))
 	prov := NewLoggerProvider(WithProcessor(bp))
 	lg := prov.Logger("c06")
 	nprod := 1 + r.Intn(5)
